@@ -28,10 +28,13 @@ import (
 // The screen is a real terminfo screen on a FakeTty; the charset comes from LC_ALL (Init reads the environment).
 // The payload is located in the Show block by comparing with two reference draws ('#' and '%') at the same column.
 //
-// acs line:  acs <pp|rr|…> <entry>      → the map VerifAcsMap(entry) builds, sorted.
+// acs line:  acs <ppp|rrp|rrs|…> <entry>      → the map VerifAcsMap(entry) builds, sorted.
+//            acs <…> syn:<acsc hex>:<smacs hex>:<rmacs hex>   the same for a synthetic description (padding forms the database
+//            does not have: in the middle of smacs, `$<` that is not a padding specification, unterminated, `*` `/` flags)
 //
-// The two p|r letters say which side of the two known defect sites of buildAcsMap (`for len(acsstr) > 2`; `string(acsstr[1])`
-// of a byte ≥ 0x80) the tree under test is on; the generator
+// The first two p|r letters say which side of the two known defect sites of buildAcsMap (`for len(acsstr) > 2`; `string(acsstr[1])`
+// of a byte ≥ 0x80) the tree under test is on, the third (p|s) whether it removes padding specifications from smacs/rmacs
+// (fixes/C17-acs-strip-padding.patch); the generator
 // determines it by probing buildAcsMap on a synthetic entry, so that the model variant compared is the one the code
 // implements and a repaired tree still corresponds.  The oracle does not look at it.
 //
@@ -136,19 +139,48 @@ func acsPairs(ti *terminfo.Terminfo) [][2]byte {
 	return ps
 }
 
-// stripPad removes terminfo padding specifications $<…> (what TPuts would do before output).
+// stripPad removes the terminfo(5) padding specifications `$<n[.m][*][/]>` of a capability string: what must not reach the
+// terminal as bytes (terminfo(5) "Delays and Padding": a number with at most one decimal place, optionally followed by `*`
+// and/or `/`).  A `$<` that does not start such a specification is ordinary text.  Written from the man page (a scanner
+// over positions), independent of terminfo.TPuts.
 func stripPad(s string) string {
-	for {
-		i := strings.Index(s, "$<")
-		if i < 0 {
-			return s
+	var out []byte
+	for i := 0; i < len(s); {
+		if n := padSpecLen(s[i:]); n > 0 {
+			i += n
+			continue
 		}
-		j := strings.IndexByte(s[i:], '>')
-		if j < 0 {
-			return s
-		}
-		s = s[:i] + s[i+j+1:]
+		out = append(out, s[i])
+		i++
 	}
+	return string(out)
+}
+
+// padSpecLen: length of the padding specification s starts with, 0 if it does not start with one.
+func padSpecLen(s string) int {
+	if !strings.HasPrefix(s, "$<") {
+		return 0
+	}
+	i, digits := 2, 0
+	for i < len(s) && s[i] >= '0' && s[i] <= '9' {
+		i, digits = i+1, digits+1
+	}
+	if digits == 0 {
+		return 0
+	}
+	if i < len(s) && s[i] == '.' {
+		i++
+		for i < len(s) && s[i] >= '0' && s[i] <= '9' {
+			i++
+		}
+	}
+	for i < len(s) && (s[i] == '*' || s[i] == '/') {
+		i++
+	}
+	if i < len(s) && s[i] == '>' {
+		return i + 1
+	}
+	return 0
 }
 
 // acsExpected: the ACS strings the entry provides for rune r (one per acsc pair naming it), and whether the only
@@ -165,6 +197,11 @@ func acsExpected(ti *terminfo.Terminfo, r rune) (want []string, lastOnly bool) {
 		}
 	}
 	return want, lastOnly && len(want) > 0
+}
+
+// acsStripped: w = EnterAcs + d + ExitAcs (from acsExpected) with the padding specifications of the two capability strings removed
+func acsStripped(ti *terminfo.Terminfo, w string) string {
+	return stripPad(ti.EnterAcs) + w[len(ti.EnterAcs):len(w)-len(ti.ExitAcs)] + stripPad(ti.ExitAcs)
 }
 
 // acsHighByte: got is smacs + UTF-8(U+00dd) + rmacs (+ tail) for a pair (n,d) naming r with d >= 0x80
@@ -486,7 +523,7 @@ func execEnc(line string) h.Result {
 func acsVariant() (res string) {
 	defer func() {
 		if recover() != nil {
-			res = "pp"
+			res = "ppp"
 		}
 	}()
 	m := tcell.VerifAcsMap(&terminfo.Terminfo{Name: "probe", AltChars: "~~", EnterAcs: "<", ExitAcs: ">"})
@@ -496,9 +533,34 @@ func acsVariant() (res string) {
 	}
 	m = tcell.VerifAcsMap(&terminfo.Terminfo{Name: "probe", AltChars: "q\xc4xx", EnterAcs: "<", ExitAcs: ">"})
 	if m[tcell.RuneHLine] == "<\xc4>" {
-		return v + "r"
+		v += "r"
+	} else {
+		v += "p"
+	}
+	if acsStrips() {
+		return v + "s"
 	}
 	return v + "p"
+}
+
+// acsStrips asks the question of the translator probe Gen.acsStripsPadding (harness/cmd/extract/acs.go acsStripProbe):
+// no string of vt220's ACS map contains `$<`, and on a synthetic entry exactly the padding specifications are gone.
+func acsStrips() bool {
+	vt := terminfo.VerifEntries()["vt220"]
+	if vt == nil || !strings.Contains(vt.EnterAcs+vt.ExitAcs, "$<") {
+		return false
+	}
+	m := tcell.VerifAcsMap(vt)
+	if len(m) == 0 {
+		return false
+	}
+	for _, s := range m {
+		if strings.Contains(s, "$<") {
+			return false
+		}
+	}
+	m = tcell.VerifAcsMap(&terminfo.Terminfo{Name: "probe", AltChars: "qqxx", EnterAcs: "<$<2>", ExitAcs: ">$<4/>"})
+	return m[tcell.RuneHLine] == "<q>"
 }
 
 func specialRunes() []int {
@@ -550,10 +612,11 @@ func genEnc(g *h.Gen) {
 		main      int
 		comb      []int
 	}{
-		{"xterm", "US-ASCII", int(tcell.RuneBullet), nil}, // last acsc pair `~~`
-		{"ansi", "ISO8859-1", int(tcell.RuneHLine), nil},  // terminal character 0xC4
-		{"vt220", "ISO8859-1", int(tcell.RuneHLine), nil}, // smacs/rmacs with padding
-		{"xterm", "ISO8859-6", 0x4e16, []int{0x64b}},      // wide '?' followed by an encodable combining mark
+		{"xterm", "US-ASCII", int(tcell.RuneBullet), nil},   // last acsc pair `~~`
+		{"ansi", "ISO8859-1", int(tcell.RuneHLine), nil},    // terminal character 0xC4
+		{"vt220", "ISO8859-1", int(tcell.RuneHLine), nil},   // smacs/rmacs with padding
+		{"vt420", "US-ASCII", int(tcell.RuneULCorner), nil}, // the other entry with padding
+		{"xterm", "ISO8859-6", 0x4e16, []int{0x64b}},        // wide '?' followed by an encodable combining mark
 	} {
 		if cd := newCodec(d.cs); cd != nil {
 			rs := append([]rune{rune(d.main)}, toRunes(d.comb)...)
@@ -723,12 +786,24 @@ func execAcs(line string) h.Result {
 		return res
 	}
 	ti := terminfo.VerifEntries()[f[2]]
+	if strings.HasPrefix(f[2], "syn:") {
+		p := strings.Split(f[2], ":")
+		if len(p) != 4 {
+			res.Obs = "bad-case"
+			return res
+		}
+		ti = &terminfo.Terminfo{Name: "syn", AltChars: string(h.Unhex(p[1])), EnterAcs: string(h.Unhex(p[2])), ExitAcs: string(h.Unhex(p[3]))}
+		res.Tags = append(res.Tags, "synthetic")
+	}
 	if ti == nil {
 		res.Obs = "no-entry"
 		return res
 	}
 	m := tcell.VerifAcsMap(ti)
 	res.Obs = showAcsMap(m)
+	if padded := stripPad(ti.EnterAcs) != ti.EnterAcs || stripPad(ti.ExitAcs) != ti.ExitAcs; padded && len(ti.AltChars) >= 2 {
+		res.Tags = append(res.Tags, "padded-smacs-rmacs")
+	}
 	res.Nontrivial = len(ti.AltChars) > 0
 	ps := acsPairs(ti)
 	// terminfo(5): acsc is a list of pairs (vt100 name, the terminal's character); the glyph named n is obtained by
@@ -743,8 +818,12 @@ func execAcs(line string) h.Result {
 		want, lastOnly := acsExpected(ti, g)
 		got, have := m[g]
 		match := false
+		// The map is internal state: its string for the glyph is smacs+d+rmacs either as the description has them (then the
+		// draw path has to deal with the padding: judged on the wire by engine enc, class acs-padding-literal) or with exactly
+		// the padding specifications removed (terminfo(5): padding is a delay, never bytes).  Nothing else: a half-stripped
+		// string, a lost character, text that is not a padding specification removed.
 		for _, w := range want {
-			if have && got == w {
+			if have && (got == w || got == acsStripped(ti, w)) {
 				match = true
 			}
 		}
@@ -778,6 +857,39 @@ func genAcsCases(g *h.Gen) {
 	sort.Strings(names)
 	for _, n := range names {
 		g.Emit("acs %s %s", v, n)
+	}
+	// synthetic descriptions: padding forms the database does not have (its only padded smacs/rmacs, vt220 and vt420, carry
+	// one `$<n>` at the very end)
+	syn := func(acsc, smacs, rmacs string) {
+		g.Emit("acs %s syn:%s:%s:%s", v, h.Hex([]byte(acsc)), h.Hex([]byte(smacs)), h.Hex([]byte(rmacs)))
+	}
+	for _, c := range [][3]string{
+		{"qqxx", "\x1b(0$<2>", "\x1b(B$<4>"},        // the vt220 form
+		{"qqxx", "\x1b$<5>(0", "$<1.5*/>\x1b(B"},    // in the middle / at the start, all flag forms
+		{"qqxx", "$<2>\x0e$<3/>", "\x0f$<10*>$<2>"}, // several specifications
+		{"qqxx", "<$<x>$", ">$<>"},                  // `$<…>` that is no padding specification: ordinary text
+		{"qqxx", "<$<2", ">$"},                      // unterminated
+		{"qqxx", "<$<$<2>", ">$<2>$<"},              // a specification after a stray `$<`
+		{"q$x<", "<$<2>", ">"},                      // `$` `<` as the terminal's own characters
+		{"qq", "$<2>", "$<4>"},                      // smacs/rmacs that are nothing but padding
+		{"qqxx~~", "$1<2>", "$ <4>"},                // not specifications
+		{"q\xc4", "\x1b[11m$<2>", "\x1b[10m$<.5>"},  // high byte; `.5` has no leading digit: not a specification
+		{"q2x3", "<$<", ">"},                        // each capability string is taken by itself: `<$<` + `2` + `>` stays
+		{"q>x<", "a$<1", "$<2>b"},                   // … and the terminal's character cannot close a specification
+	} {
+		syn(c[0], c[1], c[2])
+	}
+	r := g.R
+	frag := []string{"$<2>", "$<", ">", "$", "<", "$<1.5>", "$<3*>", "$<4/>", "$<*>", "$<1.2.3>", "$<12", "\x1b(0", "\x1b(B", "\x0e", "\x0f", "a", "$<a>", "$<7*/>", "$<0>", "2>"}
+	mk := func() string {
+		var sb strings.Builder
+		for k := r.Range(0, 5); k > 0; k-- {
+			sb.WriteString(h.Pick(r, frag))
+		}
+		return sb.String()
+	}
+	for i := g.N(150, 3000); i > 0; i-- {
+		syn(h.Pick(r, []string{"qqxx", "qq", "~~", "q\xc4xx", "q$", "lqmx", "q", "q2", "q>x<"}), mk(), mk())
 	}
 }
 
